@@ -23,3 +23,69 @@ PROPS["C17"] = {
     "explanation": "C17 is the postcondition of merge_config; every clause of the statement is an `ensures` clause proved "
                    "for all inputs on every path of the real body, with a loop invariant over the processed-key set.",
 }
+
+
+CTX_TRUSTED = [
+    "A0 cooperative atomicity (asyncio/trio run one task at a time; control changes only at await)",
+    "A1 foreign code touches asphalt state only through the public API (field-write census inside the package)",
+    "dict/tuple model of pyvc (DESIGN 2.4): == on (type, name) keys is logical equality",
+    "A-DESC descriptor wiring of Signal attributes (re-accessed bound signal carries the declaration's event class)",
+    "Signal.dispatch contract (verified separately for C10)",
+    "A-DIAG diagnostic helpers are pure", "A-TYPING typing helpers are pure", "A-CV contextvars",
+]
+CTX_ASSUME = [
+    "Python semantics as encoded by pyvc (DESIGN 2.4); termination not proved",
+    "rely at opaque calls / awaits = conjunction of the guarantees every verified asphalt operation re-establishes "
+    "(G-mono, G-st, G-ev, G-init) + immutability of construction-time fields (census)",
+    "excluded region of known finding F6 (listed under known_findings when it applies)",
+]
+
+_LOOKUP = ["_context.Context.get_resource_nowait", "_context.Context.get_resource"]
+_ADDS = ["_context.Context.add_resource", "_context.Context.add_resource_factory"]
+
+PROPS["C03"] = {
+    "functions": _ADDS + _LOOKUP + ["_context.Context.add_teardown_callback", "_context.Context._ensure_state"],
+    "trusted": CTX_TRUSTED, "assumptions": CTX_ASSUME, "undecided": [],
+    "level_text": "Proof: add_resource / add_resource_factory are verified against `raises => every context observably unchanged` on every "
+                  "raising path and against exact table extension on success; every atomic segment of every lookup and add re-establishes "
+                  "G-mono (a key once present keeps its object), which as rely makes repeated lookups return the same object under any "
+                  "interleaving. A model-based native harness replays counterexamples.",
+    "level_note": "Trusted base: assumed contracts A0, A1, A-DESC, A-DIAG, A-TYPING, pyvc's Python encoding, z3/cvc5. Known finding F6 "
+                  "(racing generation of the same key) is excluded as a region and reported as KNOWN-FINDING.",
+    "design_ref": "DESIGN.md section 5 (C03)",
+    "explanation": "contract clauses exc:unchanged, resources:keys/old-entries-kept, guar:G-mono on the real bodies",
+}
+PROPS["C18"] = {
+    "functions": _ADDS + _LOOKUP,
+    "clauses": lambda q, o: any(t in o["id"] for t in ("event", "announces", "one-event", "exc:unchanged", "canary", "G-ev", "I-ev0", "dispatch")),
+    "trusted": CTX_TRUSTED, "assumptions": CTX_ASSUME, "undecided": ["delivery of the event to subscribers is C10"],
+    "level_text": "Proof: the ghost event log of the context's own resource_added signal grows by exactly one event with the registered "
+                  "types/name/description/is_factory on every successful add and first generation, by nothing on raising paths and hits, and "
+                  "no other signal's log changes (frame).",
+    "level_note": "Trusted: Signal.dispatch contract (records one event on its own signal; verified under C10), A-DESC, pyvc encoding.",
+    "design_ref": "DESIGN.md section 5 (C18)",
+    "explanation": "event:* postconditions and announces-nothing / one-event-iff-generated local clauses",
+}
+PROPS["C02"] = {
+    "functions": ["_context.Context.__init__", "_context.Context.get_resources"] + _ADDS + _LOOKUP,
+    "trusted": CTX_TRUSTED, "assumptions": CTX_ASSUME + ["injected parameters: see C19"], "undecided": [],
+    "level_text": "Proof: Context.__init__ builds fresh tables equal to the parent's static resources and all factories (snapshot) and writes "
+                  "nothing of the parent; every operation writes only the receiver's own tables (frame + ownership invariant I-own); "
+                  "get_resources agrees with keyed lookups (I-conv). History: snapshot + own adds by induction over the contracts.",
+    "level_note": "Trusted: A1, A-CV (implicit parent = current context), pyvc encoding. The history lemma is the composition of the per-operation "
+                  "frames (each operation's contract is proved; the induction over histories is the usual contract composition).",
+    "design_ref": "DESIGN.md section 5 (C02)",
+    "explanation": "snapshot:* postconditions of __init__, other-dicts-unchanged frames, I-own, I-conv",
+}
+PROPS["C04"] = {
+    "functions": _LOOKUP + ["_context.Context.__init__", "_context.Context.add_resource_factory"],
+    "trusted": CTX_TRUSTED, "assumptions": CTX_ASSUME, "undecided": [],
+    "level_text": "Proof: a lookup through a factory calls it exactly once (activation-local call count), stores one is_generated container under "
+                  "the factory's free types, never replaces an entry (G-mono), returns the table entry; __init__ filters generated containers; the "
+                  "sync API on a coroutine product raises AsyncResourceError having written nothing. Racing lookups are covered by the rely except "
+                  "for the region of known finding F6.",
+    "level_note": "Trusted: A0, A1, pyvc encoding. KNOWN-FINDING F6: two lookups racing on one factory both call it (excluded region: the requested "
+                  "key gets registered by someone else while the product is produced).",
+    "design_ref": "DESIGN.md section 5 (C04)",
+    "explanation": "generated:* postconditions, factory-called-exactly-once, registers-nothing, snapshot:static-resources-only",
+}
